@@ -13,6 +13,7 @@ import (
 	"sort"
 	"strings"
 	"sync"
+	"sync/atomic"
 	"time"
 )
 
@@ -110,6 +111,11 @@ type Options struct {
 	Faults      []Fault
 	// ReadDirDelay is slept in every directory listing step (C16).
 	ReadDirDelay time.Duration
+	// OpBudget > 0 bounds the number of operations: an operation beyond the budget marks the
+	// file system as exceeded and never returns (the calling goroutine parks for good). A walk
+	// of a dozen nodes that makes a million calls does not terminate; parking it keeps it from
+	// burning a core and from growing the operation log without bound.
+	OpBudget int64
 	// SiteDelay is slept before every operation of the named site ("stat", "open", "fstat",
 	// "read", "readdir"), outside the file system's own lock (C16).
 	SiteDelay map[string]time.Duration
@@ -127,7 +133,16 @@ type FS struct {
 	mu     sync.Mutex
 	log    []Op
 	counts map[string]int
+
+	ops      atomic.Int64
+	exceeded atomic.Bool
 }
+
+// Exceeded reports whether the operation budget ran out (see Options.OpBudget).
+func (f *FS) Exceeded() bool { return f.exceeded.Load() }
+
+// Ops is the number of operations made so far.
+func (f *FS) Ops() int64 { return f.ops.Load() }
 
 // New builds an FS from a (normalised) tree.
 func New(t Tree, opt Options) *FS {
@@ -194,6 +209,10 @@ func mkErr(kind string) error {
 func (f *FS) op(site, p string) error {
 	if d := f.opt.SiteDelay[site]; d > 0 {
 		time.Sleep(d)
+	}
+	if n := f.ops.Add(1); f.opt.OpBudget > 0 && n > f.opt.OpBudget {
+		f.exceeded.Store(true)
+		select {}
 	}
 	f.mu.Lock()
 	defer f.mu.Unlock()
